@@ -45,6 +45,11 @@ def branch(draw, name, npar_key, horizon, n_in=1):
                 ins.append(draw(st.sampled_from(other)))
         if npar_key and draw(st.booleans()):
             ins.append(refs[0])
+        if len(ins) >= 2 and isinstance(ins[0], dict) and draw(st.integers(0, 2)) == 0:
+            # the node's FIRST boundary input is read passively (as the library's sample does): at a key change it must still be
+            # run for its other, active and held, input
+            ins[0] = dict(ins[0], passive=True)
+            flags.add("passive_first_input")
         kind = draw(st.sampled_from(["sum", "acc", "count", "timer"]))
         node = {"id": f"b{j}", "op": "node", "ins": ins, "out": "TS[int]", "coef": [draw(st.integers(1, 3)) for _ in ins],
                 "bias": draw(st.integers(0, 50)), "log_inputs": True}
